@@ -1,6 +1,8 @@
 // Package p_oracle holds the stateful checks of the editing API (d2oracle): one shared machine
 // (this file) executes a history of abstract edits against a compiled diagram; each property
-// C36..C41 runs the same machine and asserts only its own invariant (checks_test.go).
+// C36..C41 runs the same machine and asserts only its own invariant (cNN_test.go; shared helpers in
+// checks_test.go, start states and histories in gen_test.go, double execution / minimisation in
+// run_test.go).
 package p_oracle
 
 import (
